@@ -189,8 +189,15 @@ def c18(tier):
     t0 = time.time()
     b = build("sflowc")
     res = [run_space(b, "sflow.filter", tier)]
+    bp = build("pipe")
+    d, env = sched_env("c18")
+    ro = run_space(bp, "opts.filter", tier, env=env)
+    ro.viol = [v for v in ro.viol if "cmd-over-file" not in v["sig"]]  # precedence is C17's
+    res.append(ro)
+    import shutil
+    shutil.rmtree(d, ignore_errors=True)
     return finish("C18", tier, res,
-                  rule="every sample sequence of length 0..3 over {flow{raw}, flow{sw}, flow{}, counter{gen}, counter{vg,vlan,proc}, unknown3, unknown4, vendor} x 12 filter lists ([], [1], [2], [3], [1,2], [2,3], [1,3], [1,2,3], [0], [7], [vendor tag], [2^32-1]); oracle: reference tree without the listed types AND the implementation's own unfiltered decode with exactly the listed types removed. Non-trivial = every case.",
+                  rule="every sample sequence of length 0..3 over {flow{raw}, flow{sw}, flow{}, counter{gen}, counter{vg,vlan,proc}, unknown3, unknown4, vendor} x 12 filter lists ([], [1], [2], [3], [1,2], [2,3], [1,3], [1,2,3], [0], [7], [vendor tag], [2^32-1]); oracle: reference tree without the listed types AND the implementation's own unfiltered decode with exactly the listed types removed. opts.filter: every comma list of length 1..3 over {0,1,2,3,2^32-1,2^32,-1,x,empty} through the real flag parser and the YAML list form through the real option loading. Non-trivial = every case.",
                   assumptions=SF_ASSUME, t0=t0)
 
 
@@ -505,6 +512,86 @@ def c15(tier):
                   extra_cov={"executions": r.extra.get("executions", 0), "binary_runs": nruns, "binary_runs_ok": okruns,
                              "executions_by_deviations": {k: v for k, v in r.extra.items() if k.startswith("executions_with")}},
                   traces_validated=okruns, extra_viol=extra_viol, t0=t0)
+
+
+def binary_config_runs():
+    """Trace validation for C17: effective settings of the started binary (Workers in /flow, bound
+    ports, cache file written at shutdown) for configurations mixing the three sources."""
+    import e2e, tempfile, shutil, socket
+    binary = e2e.build_real()
+    fails, ok = [], 0
+    ports = e2e.free_ports(12)
+    httpp = e2e.free_ports(3, socket.SOCK_STREAM)
+    common = "producer-enabled: false\ndynamic-workers: false\nipfix-rpc-enabled: false\nsflow-port: %d\nnetflow5-port: %d\nnetflow9-port: %d\n" % (ports[0], ports[1], ports[2])
+    runs = [
+        ("file only", common + "ipfix-workers: 7\nipfix-port: %d\n" % ports[3], {}, [], {"workers": 7, "ipfix_port": ports[3]}),
+        ("file + command line", common + "ipfix-workers: 7\nipfix-port: %d\n" % ports[3], {}, ["-ipfix-workers", "9"], {"workers": 9, "ipfix_port": ports[3]}),
+        ("environment only", common + "ipfix-port: %d\n" % ports[4], {"VFLOW_IPFIX_WORKERS": "5"}, [], {"workers": 5, "ipfix_port": ports[4]}),
+        ("environment + file", common + "ipfix-workers: 6\nipfix-port: %d\n" % ports[4], {"VFLOW_IPFIX_WORKERS": "5"}, [], {"workers": 6, "ipfix_port": ports[4]}),
+        ("environment + command line", common, {"VFLOW_IPFIX_WORKERS": "5", "VFLOW_IPFIX_PORT": str(ports[5])}, ["-ipfix-workers", "4", "-ipfix-port", str(ports[6])], {"workers": 4, "ipfix_port": ports[6]}),
+        ("all three + cache file from the environment, stats port from the file", common + "ipfix-workers: 6\nstats-http-port: \"%d\"\n" % httpp[0],
+         {"VFLOW_IPFIX_WORKERS": "5", "VFLOW_IPFIX_PORT": str(ports[7]), "VFLOW_IPFIX_TPL_CACHE_FILE": "ENVCACHE"}, ["-ipfix-workers", "3"], {"workers": 3, "ipfix_port": ports[7], "http": httpp[0], "cache": "ENVCACHE"}),
+        ("protocol disabled in the file, enabled on the command line", common + "ipfix-enabled: false\nipfix-port: %d\n" % ports[8], {}, ["-ipfix-enabled=true"], {"workers": 200, "ipfix_port": ports[8]}),
+    ]
+    for name, cfg, env, args, want in runs:
+        d = tempfile.mkdtemp(prefix="c17e2e_", dir=orch.BUILD)
+        env = dict(env)
+        if env.get("VFLOW_IPFIX_TPL_CACHE_FILE") == "ENVCACHE":
+            env["VFLOW_IPFIX_TPL_CACHE_FILE"] = os.path.join(d, "from-env.cache")
+            want = dict(want, cache=os.path.join(d, "from-env.cache"))
+        env.setdefault("VFLOW_NETFLOW9_TPL_CACHE_FILE", os.path.join(d, "n9.cache"))
+        if "cache" not in want:
+            env.setdefault("VFLOW_IPFIX_TPL_CACHE_FILE", os.path.join(d, "i.cache"))
+        col = None
+        try:
+            col = e2e.Collector(binary, d, extra_args=args, env=env, config_text=cfg, minimal=True)
+            if "http" in want:
+                col.http = want["http"]
+            if not col.wait_up():
+                fails.append(("binary:config:did-not-start", "%s: %s" % (name, col.output()[-500:])))
+                continue
+            st = col.stats()
+            if st["IPFIX"]["Workers"] != want["workers"]:
+                fails.append(("binary:config:workers", "%s: /flow reports %s IPFIX workers, expected %d" % (name, st["IPFIX"]["Workers"], want["workers"])))
+                continue
+            col.ports["ipfix"] = want["ipfix_port"]
+            col.send("ipfix", e2e.ipfix_msg([e2e.ipfix_template_set(300, [(1, 8)])]))
+            st = col.wait_count("IPFIX", 1)
+            if not st or st["IPFIX"]["UDPCount"] != 1:
+                fails.append(("binary:config:port", "%s: a datagram sent to the expected IPFIX port %d was not received" % (name, want["ipfix_port"])))
+                continue
+            rc, _ = col.terminate()
+            if rc != 0:
+                fails.append(("binary:config:exit", "%s: exit status %s" % (name, rc)))
+                continue
+            if "cache" in want and not os.path.exists(want["cache"]):
+                fails.append(("binary:config:cache-file", "%s: no cache file at the path given by the environment" % name))
+                continue
+            ok += 1
+        finally:
+            if col:
+                col.kill()
+            shutil.rmtree(d, ignore_errors=True)
+    return ok, len(runs), fails
+
+
+@check("C17")
+def c17(tier):
+    t0 = time.time()
+    b = build("pipe")
+    d, env = sched_env("c17")
+    res = [run_space(b, sp, tier, env=env) for sp in ("opts.single", "opts.pairs", "opts.filter")]
+    res[2].viol = [v for v in res[2].viol if "cmd-over-file" in v["sig"]]
+    import shutil
+    shutil.rmtree(d, ignore_errors=True)
+    ok, n, fails = binary_config_runs()
+    extra_viol = [{"t": "viol", "space": "binary", "idx": i, "sig": sig, "msg": msg, "case": {"kind": "real binary run"}} for i, (sig, msg) in enumerate(fails)]
+    return finish("C17", tier, res,
+                  rule="the key <-> field <-> flag <-> yaml <-> env table is discovered from the code (struct tags; each flag set to a sentinel and the moved field observed): 45 int/string/bool settings. opts.single: every setting x every subset of {environment, file, command line} x distinct values per source (booleans: every assignment), incl. a config file lacking the key; opts.pairs: every pair of settings x every ordered pair of sources; opts.filter: the list-valued sflow-type-filter from file and command line. "
+                       "Oracle: command line > file > environment > default for the setting, every other setting untouched. Non-trivial = every case. Trace validation: %d configurations on the shipped binary (Workers in /flow, the IPFIX port actually bound, cache file path written at shutdown, stats port)." % n,
+                  assumptions=["driven through NewOptions()+flagSet(), i.e. GetOptions without logging/PID handling; flag.CommandLine, os.Args and the VFLOW_* environment are reset per case",
+                               "doc/flag-name differences (e.g. key ipfix-udp-size vs flag -ipfix-max-udp-size) are outside the statement; the table pairs each field with the flag that actually moves it"],
+                  extra_cov={"binary_runs": n, "binary_runs_ok": ok}, traces_validated=sum(r.evals for r in res) + ok, extra_viol=extra_viol, t0=t0)
 
 
 def main(argv):
